@@ -4,6 +4,8 @@ Phase 1 (parallel, in the agents' worktrees): patch applies, builds, 33 tests pa
 Phase 2 (sequential, on /repo): apply, run checks, revert. Results -> /verif/seeded/<id>/meta.json
 usage: eval_seeded.py phase1|phase2 [ids...]"""
 import json, os, subprocess, sys, shutil, concurrent.futures, time
+REPO = os.environ.get("VERIF_REPO", "/repo")
+ROOT = os.environ.get("VERIF_ROOT", "/verif")
 
 def sh(cmd, cwd=None, timeout=3600):
     try:
@@ -59,20 +61,20 @@ def phase2(sel):
         os.makedirs(dest, exist_ok=True)
         for f in os.listdir(d):
             if os.path.isfile(f"{d}/{f}"): shutil.copy(f"{d}/{f}", f"{dest}/{f}")
-        assert sh("git -C /repo status --porcelain --untracked-files=no")[1].strip() == "", "/repo dirty"
-        sh(f"git -C /repo apply {dest}/patch.diff")
+        assert sh(f"git -C {REPO} status --porcelain --untracked-files=no")[1].strip() == "", "/repo dirty"
+        sh(f"git -C {REPO} apply {dest}/patch.diff")
         checks = {}
         try:
             for p in ["C12", "C16", "C17", "C18", "C19"]:
                 t0 = time.time()
-                c, o = sh(f"/verif/bin/check {p} quick")
+                c, o = sh(f"{ROOT}/bin/check {p} quick")
                 first = next((l for l in o.splitlines() if l.startswith("violation:")), "")
                 herr = next((l for l in o.splitlines() if l.startswith("harness error")), "")
                 checks[p] = dict(exit=c, first=first[:400], harness=herr[:300], wall_s=round(time.time() - t0, 1))
                 print(sid, p, "exit", c, first[:150] or herr[:150], flush=True)
         finally:
-            sh("git -C /repo checkout -- .")
-            sh("rm -rf /verif/replays")
+            sh(f"git -C {REPO} checkout -- .")
+            sh(f"rm -rf {ROOT}/replays")
         detected = [p for p, v in checks.items() if v["exit"] == 1]
         meta = dict(id=sid, breaks_property=prop, confirmed=dict(applies=r.get("applies"), builds=r.get("build_ok"), baseline_tests_pass_fail=r.get("tests_pass_fail"),
                     demo_exit_on_pristine=r.get("demo_pristine_exit"), demo_exit_with_change=r.get("demo_patched_exit")),
